@@ -1,6 +1,6 @@
 #!/bin/sh
 # tools/runall.sh [tier] : every check once, summary line per check
-cd /verif
+cd "$(dirname "$0")/.." || exit 2
 tier=${1:-quick}
 for c in C01 C02 C03 C04 C05 C06 C07 C08 C09 C10 C11 C12 C13 C14 C15 C16 C17 C18 C19 C20; do
   s=$(date +%s)
